@@ -233,8 +233,11 @@ Definition check (c : c12case) : N :=
       let stacked_ok := match impl with
                         | Ok vs => cout_eqb istacked (compose fs tmpl [VStruct vs])
                         | _ => true end in
-      let nok := match mregs with
-                 | Ok regs => names_ok p te nd regs (paths (alias_fields (flag_alias_keys p) (ptrify_fields fs)))
+      (* the names the code derives, also when registration then fails on them (a mis-split name
+         may collide with another flag's: the naming class then shows as a registration error) *)
+      let nok := match flatten (flag_cfg ne te) (alias_fields (flag_alias_keys p) (ptrify_fields fs)) with
+                 | Ok ls => names_ok p te nd (map (mk_reg p fs tmpl) ls)
+                              (paths (alias_fields (flag_alias_keys p) (ptrify_fields fs)))
                  | _ => true end in
       if is_panic impl || is_panic iadv then 3             (* no panic is ever acceptable *)
       else if negb stacked_ok then 3
